@@ -18,7 +18,7 @@ IMPORTS = "From CV Require Import Base.Cmp Model.C20_Diff.\nFrom Coq Require Imp
 RULE = ("every (order, BC, n) for 1-d n<=12 quick/<=40 thorough and 2-d n x n <= 5x5 quick/<=10x10 thorough, BC in "
         "zero/periodic/neumann/backward/none/unknown, orders 1,2 (0..3 for the precision), both num_nodes forms, dyadic and "
         "non-dyadic dx, malformed constructor calls; integer vectors applied; GMRF (1-d n<=10/24, 2-d N<=4/6) x BC x order 0..2; "
-        "LMRF/CMRF x BC x scalar/vector location. distinct = distinct (operation, configuration, vectors); trivial = "
+        "GMRF with config.MAX_DIM_INV lowered (large-dimension log-determinant branch); negative dx; LMRF/CMRF x BC x scalar/vector location. distinct = distinct (operation, configuration, vectors); trivial = "
         "refused configurations and BC 'none' (identity)")
 
 BCS = ["zero", "periodic", "neumann", "backward", "none"]
@@ -27,6 +27,7 @@ BC_COQ = {"zero": "Zero", "periodic": "Periodic", "neumann": "Neumann", "backwar
 SIG_RANK0 = "GMRF.__init__|rank:order0-periodic/neumann"
 SIG_RANK2N = "GMRF.__init__|rank:order2-neumann"
 SIG_SMALLN = "FiniteDifference._create_diff_matrix|periodic:N-below-stencil-width"
+SIG_BIGDIM = "GMRF.__init__|logdet:dim-above-MAX_DIM_INV"
 SIG_RANK_OTHER = "GMRF.__init__|rank-logdet:other"
 
 
@@ -231,13 +232,21 @@ def mk_geometry(pd, dim):
     return cuqi.geometry.Image2D((N, N))
 
 
-def observe_gmrf(pd, dim, bc, order, prec=1.0, mean=None):
+def observe_gmrf(pd, dim, bc, order, prec=1.0, mean=None, big=False):
+    """big: construct with cuqi.config.MAX_DIM_INV lowered below dim (the documented configuration knob), which
+    selects the large-dimension branch of GMRF.__init__ at a size the model can evaluate exactly"""
+    import cuqi
     from cuqi.distribution import GMRF
+    saved = cuqi.config.MAX_DIM_INV
     try:
+        if big:
+            cuqi.config.MAX_DIM_INV = 1
         g = quiet(GMRF, np.zeros(dim) if mean is None else mean, prec, bc_type=bc, order=order, geometry=mk_geometry(pd, dim))
         return g, None
     except Exception as e:
         return None, type(e).__name__
+    finally:
+        cuqi.config.MAX_DIM_INV = saved
 
 
 def nd_info(nd):
@@ -288,7 +297,7 @@ def case_fd(order, nd, bc, dx=None, dx_repr=None):
 def is_pow2(dx):
     if dx is None or dx == 0:
         return False
-    f = Fraction(dx)
+    f = abs(Fraction(dx))
     return (f.numerator & (f.numerator - 1)) == 0 and (f.denominator & (f.denominator - 1)) == 0 and f > 0
 
 
@@ -351,14 +360,16 @@ def gmrf_class_signature(pd, dim, bc, order):
     return SIG_RANK_OTHER
 
 
-def gmrf_cases(pd, dim, bc, order, rng, nvec=2):
-    """all cases for one GMRF configuration"""
+def gmrf_cases(pd, dim, bc, order, rng, nvec=2, big=False):
+    """all cases for one GMRF configuration (big: the dim > config.MAX_DIM_INV branch, see observe_gmrf)"""
     out = []
     base = {"pd": pd, "dim": dim, "bc": bc, "order": order}
+    if big:
+        base["big"] = True
     args = "%s %s %s %s" % (cnat(pd), cnat(dim), cbc(bc), cnat(order))
-    cell = "gmrf/%dd/o%d/%s" % (pd, order, bc if bc in BCS else "unknown")
+    cell = "gmrf/%dd/o%d/%s%s" % (pd, order, bc if bc in BCS else "unknown", "/bigdim" if big else "")
     prec = rng.choice([0.5, 1.0, 2.0, 4.0])
-    g, err = observe_gmrf(pd, dim, bc, order, prec=prec)
+    g, err = observe_gmrf(pd, dim, bc, order, prec=prec, big=big)
     # (a) refusal, coded rank, operators -- faithful model
     if g is None:
         obs_init = None
@@ -392,9 +403,9 @@ def gmrf_cases(pd, dim, bc, order, rng, nvec=2):
                     impl_fail=fail, signature="GMRF.sqrtprec" if fail else ""))
     # (c) property: rank and log-determinant are those of the precision
     ev = np.linalg.eigvalsh(Pd)
-    big = ev > 1e-9 * max(1.0, ev.max())
-    true_rank = int(np.sum(big))
-    true_logdet = float(np.sum(np.log(ev[big])))
+    pos_ev = ev > 1e-9 * max(1.0, ev.max())
+    true_rank = int(np.sum(pos_ev))
+    true_logdet = float(np.sum(np.log(ev[pos_ev])))
     logdet = float(g._logdet)
     finite = math.isfinite(logdet)
     fail = None
@@ -405,13 +416,21 @@ def gmrf_cases(pd, dim, bc, order, rng, nvec=2):
         fail = "GMRF(dim=%d, %s, order %d, %d-d): reported logdet %r, the precision has pseudo-log-determinant %r (rank %d)" % (
             dim, bc, order, pd, logdet, true_logdet, true_rank)
     sig = gmrf_class_signature(pd, dim, bc, order) if fail else ""
+    if fail and big and sig == SIG_RANK_OTHER and bc in ("periodic", "neumann"):
+        sig = SIG_BIGDIM
     e_obs = math.exp(logdet) if finite and logdet < 600 else 0.0
     expr = "check_true_rank %s %s && check_true_expdet %s %s" % (args, cnat(int(g._rank)), args, cq(e_obs))
     out.append(Case(expr=expr, meta=dict(base, op="gmrf_rank_logdet", prec=prec,
                                          coq_model="option_map (fun g => (zrank %s (g_prec g), zdet (g_prec g), pdet1 (g_prec g))) (gmrf_init %s)" % (cnat(dim), args)),
                     cell=cell + "/rank-logdet", kind="TOLERANCE", impl_fail=fail, signature=sig))
     # (d) faithful exp(logdet) where the model describes the code's value
-    if not (order == 2 and (bc == "neumann" or (bc == "periodic" and N <= 2))):
+    if big and bc in ("periodic", "neumann"):
+        # large-dimension branch: log det of the regularised matrix P + sqrt(eps) I; compared after division by sqrt(eps) = 2^-26
+        e_reg = math.exp(logdet + 26 * math.log(2.0)) if finite and logdet < 500 else 0.0
+        out.append(Case(expr="check_expdet_reg %s %s" % (args, cq(e_reg)),
+                        meta=dict(base, op="gmrf_expdet_coded", prec=prec, coq_model="gmrf_expdet_reg %s" % args),
+                        cell=cell + "/logdet-coded", kind="TOLERANCE"))
+    elif not (order == 2 and (bc == "neumann" or (bc == "periodic" and N <= 2))):
         expr = "check_expdet %s %s" % (args, cq(e_obs))
         out.append(Case(expr=expr, meta=dict(base, op="gmrf_expdet_coded", prec=prec, coq_model="gmrf_expdet %s" % args),
                         cell=cell + "/logdet-coded", kind="TOLERANCE"))
@@ -422,7 +441,7 @@ def gmrf_cases(pd, dim, bc, order, rng, nvec=2):
             mean = [rng.randint(-3, 3)]
         else:
             mean = [rng.randint(-3, 3) for _ in range(dim)]
-        gm, _ = observe_gmrf(pd, dim, bc, order, prec=prec, mean=np.array(mean, dtype=float) if len(mean) > 1 else float(mean[0]))
+        gm, _ = observe_gmrf(pd, dim, bc, order, prec=prec, mean=np.array(mean, dtype=float) if len(mean) > 1 else float(mean[0]), big=big)
         mvec = np.array(mean * dim if len(mean) == 1 else mean, dtype=float)
         v0 = float(np.ravel(gm.logpdf(mvec))[0])
         v = float(np.ravel(gm.logpdf(np.array(x, dtype=float)))[0])
@@ -523,6 +542,9 @@ def run(ctx):
             for n in ([1, 2, 3, 4, 7] if not ctx.thorough else [1, 2, 3, 4, 5, 7, 11, 16]):
                 for dx in (rng.choice(dyadic), rng.choice(other)):
                     cases.append(case_fd(order, n, bc, dx=dx))
+            for n in (3, 6):
+                cases.append(case_fd(order, n, bc, dx=rng.choice([-0.5, -2.0, -0.25])))     # negative spacing: D/dx, D/dx^2
+                cases.append(case_fd(order, n, bc, dx=rng.choice([-0.3, -3, -1e-2])))
         cases.append(case_fd(order, 3, "zero", dx=0))
         cases.append(case_fd(order, 3, "zero", dx=0.0))
         cases.append(case_fd(order, ["t", 2, 2], "zero", dx=0.5))
@@ -577,6 +599,12 @@ def run(ctx):
                 Ns = [2]
             for N in Ns:
                 cases += gmrf_cases(2, N * N, bc, order, rng, nvec=2)
+    # ---- 7b. GMRF, the dim > config.MAX_DIM_INV branch (periodic / neumann take log det of P + sqrt(eps) I) ----
+    for order in (0, 1, 2):
+        for bc in ("zero", "periodic", "neumann"):
+            for dim in ([4, 7] if not ctx.thorough else [3, 4, 7, 12]):
+                cases += gmrf_cases(1, dim, bc, order, rng, nvec=1, big=True)
+            cases += gmrf_cases(2, 9, bc, order, rng, nvec=1, big=True)
     # ---- 8. LMRF / CMRF -----------------------------------------------------------------------------------
     for kind in ("lmrf", "cmrf"):
         for bc in allbc:
@@ -607,7 +635,7 @@ def rebuild(meta, rng=None):
     if op == "apply":
         return [case_apply(meta["order"], meta["nodes"], meta["bc"], meta["x"], meta["y"])]
     if op and op.startswith("gmrf"):
-        cs = gmrf_cases(meta["pd"], meta["dim"], meta["bc"], meta["order"], random.Random(0), nvec=2)
+        cs = gmrf_cases(meta["pd"], meta["dim"], meta["bc"], meta["order"], random.Random(0), nvec=2, big=bool(meta.get("big")))
         return [c for c in cs if c.meta["op"] == op] or cs
     if op in ("lmrf", "cmrf"):
         return [mrf_case_from(op, meta["pd"], meta["dim"], meta["bc"], meta["scale"], meta["x"], meta["loc"])]
@@ -653,6 +681,8 @@ def search(ctx):
                     if pd == 2 and int(math.isqrt(dim)) ** 2 != dim:
                         continue
                     found += [c for c in gmrf_cases(pd, dim, bc, order, rng, nvec=1) if c.impl_fail]
+                    if dim in (4, 9):
+                        found += [c for c in gmrf_cases(pd, dim, bc, order, rng, nvec=1, big=True) if c.impl_fail]
     for kind in ("lmrf", "cmrf"):
         for bc in BCS:
             for dim in (2, 5, 9):
@@ -678,6 +708,7 @@ def known_witnesses(ctx):
     out[SIG_RANK0] = first_fail(gmrf_cases(1, 7, "periodic", 0, r, nvec=0), SIG_RANK0)
     out[SIG_RANK2N] = first_fail(gmrf_cases(1, 7, "neumann", 2, r, nvec=0), SIG_RANK2N)
     out[SIG_SMALLN] = first_fail([case_fd(2, 2, "periodic")], SIG_SMALLN)
+    out[SIG_BIGDIM] = first_fail(gmrf_cases(1, 7, "periodic", 1, r, nvec=0, big=True), SIG_BIGDIM)
     return out
 
 
